@@ -400,7 +400,11 @@ def check_find(rep, db, f, inst, rule="R-C04-find"):
         saw = True
         conds = q.conds_before(p, len(p.events))
         ok = any(c[0] == "cmp" and c[1] == "!=" and c[3] == C(0) and q.is_call(c[2], "impl_is_pointer_in_sandbox_memory") and q.call_args(c[2]) == (ex,) and strip_rd(c[2][-1]) == strip_rd(r) for c in conds)
-        if not (isinstance(strip_rd(r), tuple) and strip_rd(r)[:1] == ("elem",)) or not ok:
+        # the sandbox returned is a list element, or a value read out of exactly one list element (an entry struct wrapping the pointer)
+        elems = set()
+        q.mentions(strip_rd(r), lambda x: elems.add(x) or False if isinstance(x, tuple) and x[:1] == ("elem",) else False)
+        of_one_elem = len(elems) == 1 and "sandbox_list" in fmt(list(elems)[0][2])
+        if not of_one_elem or not ok:
             rep.violation(rule, site(f), "returns %s, which is not the list element whose memory contains the example address" % fmt(r)[:120], f["loc"], inst)
             return
     if not saw:
